@@ -14,8 +14,8 @@ RULE = ("Each case = one whole simulated Pynguin run with assertion generation (
         "TestCase.remove_unused_variables is wrapped - assertions attached before the call must still be attached "
         "after it; generator._minimize as a whole is bracketed - every statement that carried a regression "
         "assertion before it must, in each test case that survives it (same TestCase object), still exist (modulo "
-        "`x = e` -> `e`) with all those assertions. End to end: the assertions attached to each test case immediately before _export_chromosome are "
-        "rendered with the exporter's own assertion_to_cst and each rendered line must occur in the corresponding "
+        "`x = e` -> `e`) with all those assertions. End to end: the assertions attached to each test case "
+        "immediately before _export_chromosome are rendered with the exporter's own assertion_to_cst and each rendered line must occur in the corresponding "
         "test_<n> function of the written file. Non-trivial = >= 3 assertions were attached to statements whose "
         "variable is not read by any later statement (the dropping path); distinct = distinct run digest.")
 ASSUMPTIONS = [
@@ -29,7 +29,9 @@ MANIFEST = {
     "technique": "deterministic simulation of whole generator runs; operation-level monitor on the phase that rewrites "
                  "statements plus end-to-end comparison of attached vs. exported assertions",
     "text": "Seeded exploration of complete runs over modules/algorithms/assertion modes; every remove_unused_variables "
-            "call and the final export are checked for silently dropped oracles.",
+            "call, the whole statement/suite minimisation phase (generator._minimize) and the final export are checked "
+            "for silently dropped reference assertions. Exception assertions and test cases removed as a whole are "
+            "not covered.",
     "note": "Trusted: assertion_to_cst as the rendering of an assertion (the exporter's own function).",
     "ref": "DESIGN.md §3 C19",
 }
